@@ -54,6 +54,17 @@ type FS struct {
 	StrictStale       bool // dead handle must give STALE/BADHANDLE (C08); otherwise any error
 	AllowImplFail     bool // NOSPC / SERVERFAULT / IO are accepted as implementation-only failures (no change)
 	CheckFsinfoHandle bool
+	ids               map[uint64]int // file id -> live object (index, rebuilt on demand)
+}
+
+func (fs *FS) fileids() map[uint64]int {
+	if fs.ids == nil {
+		fs.ids = make(map[uint64]int, len(fs.Objs))
+		for id, o := range fs.Objs {
+			fs.ids[o.Fileid] = id
+		}
+	}
+	return fs.ids
 }
 
 func New() *FS {
@@ -220,6 +231,9 @@ func nameOdd(n string) bool {
 }
 
 func (fs *FS) kill(o *Obj) {
+	if fs.ids != nil && fs.ids[o.Fileid] == o.ID {
+		delete(fs.ids, o.Fileid)
+	}
 	delete(fs.ByFH, o.FH)
 	delete(fs.Objs, o.ID)
 }
@@ -483,11 +497,10 @@ func (fs *FS) Step(o fsx.Op, h, h2 []byte, r *fsx.Reply) (implFail bool, err *Mi
 		}
 		if r.Attr != nil {
 			n.Fileid = r.Attr.Fileid
-			for _, x := range fs.Objs {
-				if x.Fileid == n.Fileid {
-					return false, mm(k+"-fileid-dup", "new object got file id %d which a live object has", n.Fileid)
-				}
+			if _, dup := fs.fileids()[n.Fileid]; dup {
+				return false, mm(k+"-fileid-dup", "new object got file id %d which a live object has", n.Fileid)
 			}
+			fs.fileids()[n.Fileid] = n.ID
 		}
 		fs.Objs[n.ID] = n
 		fs.ByFH[fhs] = n.ID
